@@ -195,6 +195,33 @@ def run_case(case):
             elif name == "clear":
                 cfg.clear()
                 model.clear()
+            elif name == "update" and op.get("kind") == "boom":
+                # the argument fails after yielding k edges: the exception comes
+                # out, and the CFG holds the consumed prefix (or nothing new)
+                es = op.get("es", [])
+                k = op.get("bk", 0) % (len(es) + 1)
+
+                class Boom(Exception):
+                    pass
+
+                def gen():
+                    for e in es[:k]:
+                        yield w.edge(*e)
+                    raise Boom()
+
+                res.tag("failed-op:update")
+                try:
+                    cfg.update(gen())
+                    res.fail("C11:failed-update-exception-swallowed", where)
+                except Boom:
+                    pass
+                prefix = {w.key(*e) for e in es[:k]}
+                real = {w.key_of(e) for e in cfg}
+                if real == model | prefix:
+                    model |= prefix
+                elif real != model:
+                    res.fail("C11:failed-update-contents", "%s: neither the consumed prefix nor nothing was added" % where)
+                    return res
             elif name == "update":
                 other, keys = operand(w, op, gi)
                 cfg.update(other)
@@ -272,7 +299,7 @@ def strategy():
         "remove": progs.op("remove", s=s_, t=t_, l=l_, g=g_),
         "pop": progs.op("pop", g=g_),
         "clear": progs.op("clear", g=g_),
-        "update": progs.op("update", es=es, kind=kind, g=g_),
+        "update": progs.op("update", es=es, kind=st.one_of(kind, kind, kind, st.just("boom")), g=g_, bk=st.integers(0, 5)),
         "ior": progs.op("ior", es=es, kind=kind, g=g_),
         "iand": progs.op("iand", es=es, kind=kind, g=g_),
         "isub": progs.op("isub", es=es, kind=kind, g=g_),
